@@ -58,10 +58,7 @@ Section Shape.
                        | _ => []
                        end) (r_members r).
 
-  Definition is_mp (r : relation) : bool :=
-    let tt := tag_find (r_tags r) "type" in
-    negb (String.eqb tt "route") && (String.eqb tt "multipolygon" || String.eqb tt "boundary").
-
+  (* [is_mp]: C17/Spec.v *)
   Definition adopt_candidate (r : relation) : list Z :=
     if is_mp r && negb (has_interesting (r_tags r) (Some old_style_ignore))
     then match outer_refs r with [x] => [x] | _ => [] end
